@@ -79,12 +79,12 @@ def build_probes(all_specs):
              ('DateTime', 'domani alle 17 e la prossima settimana'), ('DateTime', 'morgen om 17 uur en volgende week')]
     for kind, q in extra:
         lst = probes.setdefault(kind, [])
-        lst.append({'query': q, 'ref': callsim.DEFAULT_DT_REF, 'key': 'probe|%s|%d' % (kind, len(lst))})
+        lst.append({'query': q, 'ref': callsim.DEFAULT_DT_REF, 'key': 'probe|%s|%d' % (kind, len(lst)), 'strong': True})
     # option-sensitive English inputs (established against the pinned tree: they separate options 0,1,2,3 and 4)
     for q, r in [('schedule a meeting from 5pm to 7pm tomorrow', '2016-11-07T00:00:00'), ("I'm blocked for the day", '2016-11-07T16:12:00'),
                  ('Change my meeting from 9am to 11am', '2016-11-07T00:00:00'), ('I left yesterday at 12', '2017-12-18T00:00:00')]:
         lst = probes.setdefault('DateTime', [])
-        lst.append({'query': q, 'ref': r, 'key': 'probe|DateTime|%d' % len(lst)})
+        lst.append({'query': q, 'ref': r, 'key': 'probe|DateTime|%d' % len(lst), 'strong': True})
     return probes
 
 
@@ -438,6 +438,7 @@ def write_ev(prop, tier, seed, agg, wall, nviol, jobs):
                    'swallowed_faults': agg['swallowed_abort'], 'thread_placements': agg['placements'],
                    'clients_per_run': agg['threads'], 'scheduler_kinds': agg['sched_kinds'],
                    'golden_disagreements': agg.get('golden_disagreements', 0),
+                   'observed_mean_steps_per_call': {k: int(v[1] / max(1, v[0])) for k, v in agg['observed_steps'].items()},
                    'culture_string_classes': agg['culture_classes'], 'get_outcomes': agg['get_outcomes']},
         'preemption_sites': {'distinct': len(agg['sites']), 'top': sorted(agg['sites'].items(), key=lambda x: -x[1])[:15]},
         'known_findings_hit': agg['known'],
